@@ -6,3 +6,4 @@ import Stackage.Gen.Conds
 import Stackage.Gen.Facts
 import Stackage.Model.Val
 import Stackage.Model.Ops
+import Stackage.Props.C20
